@@ -28,6 +28,7 @@ from typing import TYPE_CHECKING
 from igraph import Vertex
 
 from explorerscript.ssb_converting.decompiler.write_handlers.abstract import AbstractWriteHandler, FallbackToJump
+from explorerscript.ssb_converting.ssb_special_ops import OP_JUMP
 
 if TYPE_CHECKING:
     from explorerscript.ssb_converting.ssb_decompiler import ExplorerScriptSsbDecompiler
@@ -46,7 +47,7 @@ class ForeverBreakWriteHandler(AbstractWriteHandler):
     def write_content(self) -> Vertex | None:
         """Print a break and end"""
         logger.debug("Handling a break_loop; (%s)...", self.start_vertex["op"])
-        self.decompiler.source_map_add_opcode(self.start_vertex["op"].offset)
+        self._source_map_add_jump()
         self.decompiler.write_stmnt("break_loop;")
         exits = self.start_vertex.out_edges()
         if len(exits) == 1:
@@ -60,3 +61,10 @@ class ForeverBreakWriteHandler(AbstractWriteHandler):
             self.decompiler.forever_start_handler_stack[-1].set_vertex_after(exits[0].target_vertex)
             return None
         raise ValueError("After a break_loop there must be exactly 1 immediate opcode.")
+
+    def _source_map_add_jump(self) -> None:
+        # build_loops also inserts breaks / continues behind ops that are not jumps (they carry the offset of that
+        # op); only a real Jump op is represented by this statement.
+        op = self.start_vertex["op"]
+        if op.maybe_root is not None and op.root.op_code.name == OP_JUMP:
+            self.decompiler.source_map_add_opcode(op.offset)
